@@ -99,7 +99,8 @@ def ob_defaults(lst: List[int], dk: int, n: int) -> bool:
 
 
 # (query, predecessor, what the action does to variables)
-VFAM = [("p/setv-7", "p"), ("p/let-w-abc", "p"), ("p/readv-u", "p"), ("p/addn-5", "p"), ("p/addn-~X~readv-u~E", "p"), ("p/mut", "p")]
+VFAM = [("p/setv-7", "p"), ("p/let-w-abc", "p"), ("p/readv-u", "p"), ("p/addn-5", "p"), ("p/addn-~X~readv-u~E", "p"), ("p/mut", "p"),
+        ("p/one", "p")]     # a first-command used mid-query: the prefix's variables (incl. overridden defaults) stay
 
 
 def ob_vars_step(v: int, pvar: int, other: int, g2: int) -> bool:
